@@ -984,23 +984,27 @@ fn record(out: &str, a: &Args) {
         let len = rng.range(0, 96) as usize;
         plans.push((gen_buf(&mut rng, len), rng.chance(1, 2), rng.next(), 30, true));
     }
-    for (data, le, hseed, steps, with_empty) in plans.iter() {
-        for k in 0..KINDS.len() {
-            let mut job = RecordJob {
-                kind: KINDS[k],
-                le: *le,
-                seed: *hseed,
-                n: *steps,
-                with_empty: *with_empty,
-                mh: 8,
-                data,
-                out: &mut evs,
-            };
-            let (_, td) = with_kind(k, data, *le, &mut job);
-            let td = if td.is_null() { json!([-1, -1]) } else { td };
-            evs.push(json!({"ev":"Teardown","kind":KINDS[k],"td":td}));
+    // long histories first, then the parses, the short histories containing `empty` last
+    let run_plans = |which: bool, evs: &mut Vec<Value>| {
+        for (data, le, hseed, steps, with_empty) in plans.iter().filter(|p| p.4 == which) {
+            for k in 0..KINDS.len() {
+                let mut job = RecordJob {
+                    kind: KINDS[k],
+                    le: *le,
+                    seed: *hseed,
+                    n: *steps,
+                    with_empty: *with_empty,
+                    mh: 8,
+                    data,
+                    out: evs,
+                };
+                let (_, td) = with_kind(k, data, *le, &mut job);
+                let td = if td.is_null() { json!([-1, -1]) } else { td };
+                evs.push(json!({"ev":"Teardown","kind":KINDS[k],"td":td}));
+            }
         }
-    }
+    };
+    run_plans(false, &mut evs);
     let np = a.num("--parse", 4) as usize;
     let r = guarded(|| {
         record_parses(&mut rng, np, &mut evs);
@@ -1010,6 +1014,7 @@ fn record(out: &str, a: &Args) {
         eprintln!("record: {}", r);
         std::process::exit(3);
     }
+    run_plans(true, &mut evs);
     write_lines(out, &evs);
 }
 
